@@ -77,6 +77,30 @@ ALIAS = [
 ]
 
 
+# heterogeneous cells: ONE column / batch member reaches a threshold early (its Krylov space is exhausted after 2-3 loop
+# bodies: rhs spanned by two eigenvectors of the preconditioned operator [column kind e], an operator with few distinct
+# eigenvalues or identity + low rank [fam0 = family of batch member 0], an exact initial guess for column 0 only) while
+# another column / member is generic and far from convergence.  They separate "any" from "all" and per-column from global
+# decisions: the update_tridiag switch (max over all tridiagonalised columns), the stopping rule (mean over all columns), the
+# has_converged masks, the early-convergence shortcut (has_converged.all()), terminate_cg_by_size.
+HETERO = [
+    dict(cols="en", n_tridiag=2, max_tridiag_iter="=", tol=1e-12),
+    dict(cols="ne", n_tridiag=2, max_tridiag_iter="=", tol=1e-12),
+    dict(cols="nen", n_tridiag=3, max_tridiag_iter="=", tol=1e-12, pre="jacobi"),
+    dict(cols="n", batch=[2], fam0=["few2", 3.0], n_tridiag=1, max_tridiag_iter="=", tol=1e-12),
+    dict(cols="nn", batch=[2], fam0=["lrid2", 4.0], n_tridiag=2, max_tridiag_iter="=", tol=1e-12, tcs=True),
+    dict(cols="en", batch=[2], n_tridiag=2, max_tridiag_iter="=", tol=1e-12, pre="lowrank"),
+    dict(cols="en", tol=1e-3),
+    dict(cols="ne", tol=1e-2, batch=[2], pre="jacobi"),
+    dict(cols="en", stop=1e-3, tol=1e-8),
+    dict(cols="dn", stop=1e-3, tol=1e-9),
+    dict(cols="nd", stop=1e-3, tol=1e-9, pre="jacobi", batch=[2]),
+    dict(cols="nn", x0="exact0"),
+    dict(cols="nnn", x0="exact0", pre="jacobi", n_tridiag=2, max_tridiag_iter="="),
+]
+HETERO_FAMS = [("uniform", 10.0), ("geometric", 1e2)]
+
+
 def mkspec(fam, kappa, n, prof, vseed, quick):
     sp = {"fam": fam, "kappa": kappa, "n": n, "batch": [], "cols": "n", "vseed": vseed}
     sp.update(prof)
@@ -175,6 +199,12 @@ def grid(quick, rng):
             fam, kappa = ("uniform", 10.0)
             sp = mkspec(al.get("fam", fam), al.get("kappa", kappa), n, al, rng.getrandbits(40), quick)
             systems.append(sp)
+    hi = 0
+    for he in HETERO:
+        for n in ([5, 8, 16] if quick else [4, 5, 6, 8, 11, 16, 24]):
+            fam, kappa = HETERO_FAMS[hi % len(HETERO_FAMS)]
+            hi += 1
+            systems.append(mkspec(fam, kappa, n, he, rng.getrandbits(40), quick))
     out = []
     for sp in systems:
         bs = budgets_for(sp, quick)
